@@ -114,6 +114,16 @@ impl Conc {
         c
     }
 
+    /// the extreme Z/M ids are the infinities (values the header's running range starts from internally)
+    pub fn force_inf(mut self) -> Conc {
+        self.zm.insert(IDMIN, f64::NEG_INFINITY);
+        self.zm.insert(IDMAX, f64::INFINITY);
+        self.rev_zm = self.zm.iter().map(|(k, v)| (v.to_bits(), *k)).collect();
+        self.descr = format!("{}; zm extremes = -inf/+inf", self.descr);
+        self.check();
+        self
+    }
+
     /// X/Y ids are neighbouring doubles (id i = the i-th double after `base`): what rounding noise looks like
     /// (0.1 + 0.2 versus 0.3).  Not exact for products: closure and vertex preservation only.
     pub fn ulps(rng: &mut Rng) -> Conc {
